@@ -519,6 +519,8 @@ def itermergesort(sources, key, header, missing, reverse):
                 # handle short rows
                 outrow = [missing] * len(ofs)
                 for i, fi in enumerate(flds):
+                    if fi not in ofs:
+                        continue  # field not wanted in the output
                     try:
                         outrow[ofs.index(fi)] = _row[i]
                     except IndexError:
